@@ -87,14 +87,18 @@ func (checker *TimestampChecker) IsUpToDate(t *ast.Task) (bool, error) {
 		return false, nil
 	}
 
-	// Modify the metadata of the file to the the current time.
-	if !checker.dry {
+	upToDate := !shouldUpdate && generatesExist
+
+	// Modify the metadata of the file to the the current time. Only when the
+	// task is going to run: a check that ends in "up to date" must not move
+	// the marker past sources that were edited since the last run.
+	if !checker.dry && !upToDate {
 		if err := os.Chtimes(timestampFile, taskTime, taskTime); err != nil {
 			return false, err
 		}
 	}
 
-	return !shouldUpdate && generatesExist, nil
+	return upToDate, nil
 }
 
 func (checker *TimestampChecker) Kind() string {
